@@ -13,7 +13,7 @@ is necessary for any round trip.
                 their own render methods.
 """
 
-from ..domains import AbsStr, AbsSeq, AbsInt, Cond
+from ..domains import AbsStr, AbsSeq, AbsInt, Cond, install_rx_hooks, _freeze
 from ..interp import (AbstractValue, Interp, Oracle, Obj, Unknown, enumerate_paths, Raised, is_abstract,
                       GenVal, StarOf, MISSING)
 from ..model import AnalysisError, ClassInfo, FuncInfo, loc
@@ -178,6 +178,13 @@ def run(ctx):
         if not ok:
             rep.find('R-MD-TOKENS', cfg.cls.short + '.__init__', what, 'while MarkdownRenderer is active: %s does not hold' % what,
                      loc(model.unit_of(cfg.cls), cfg.cls.node))
+    # ---- spellings captured by start() for read()/the constructor are captured on every accepting path (shared with C05)
+    from . import c05
+    c05.rule_scratch(ctx, rep, rule='R-SPELL-SCRATCH')
+    # ---- the definition block keeps every definition it was given, in order, duplicates of a label included
+    rule_definitions_kept(ctx, rep)
+    # ---- fragments are assembled into lines without touching their text (no limit: the source's own line flow)
+    rule_assembly(ctx, rep, cfgs)
     # ---- interpretation of every render method, under every option valuation
     lrd = model.classes.get('mistletoe.markdown_renderer.LinkReferenceDefinition')
     tasks = []
@@ -261,6 +268,111 @@ def run(ctx):
                      loc(model.unit_of(cfg.render_map[cname]), cfg.render_map[cname].node))
     rep.floor('R-SPELL-USED', n, 33)
     rep.assume('spelling table: class -> attributes kept for the round trip, confirmed by reading the constructors')
+
+
+def rule_assembly(ctx, rep, cfgs):
+    """span_to_lines (make_fragments replaced by two abstract fragments, no limit) is interpreted under every
+    option valuation: the text of each fragment - a title, an HTML span or a code span may hold its own
+    newlines and the spaces around them - must reach the output lines, and only through steps that cannot
+    change it (splitting at newlines and concatenation, not strip / replace / case mapping)."""
+    from ..interp import Interp, Obj, Raised, enumerate_paths, GenVal, LoopTruncated
+    model = ctx.model
+    rep.rule('R-ASSEMBLY', 'without a limit, fragment text reaches the output lines unchanged (no stripping or rewriting on the way)')
+    frag = model.classes.get('mistletoe.markdown_renderer.Fragment')
+    if frag is None:
+        raise AnalysisError('anchor vanished: markdown_renderer.Fragment')
+    for cfg in cfgs:
+        hit = cfg.cls.lookup('span_to_lines')
+        mf = cfg.cls.lookup('make_fragments')
+        if hit is None or mf is None:
+            raise AnalysisError('anchor vanished: MarkdownRenderer.span_to_lines / make_fragments')
+        f = hit[1]
+        rep.instance('R-ASSEMBLY')
+        lost, seen, n = {}, set(), 0
+
+        def run_(oracle, cfg=cfg):
+            it = Interp(model, loop_bound=3, while_bound=4)
+            it.reset_run(oracle)
+            T.install_string_hooks(it)
+            frs = [Obj(frag, {'text': T.Taint('F1')}), Obj(frag, {'text': T.Taint('F2')})]
+            it.func_hooks[mf[1].qualname] = lambda interp, fi, args, kwargs: list(frs)
+            try:
+                g = it.call_function(f, [T.clone_obj(cfg.obj), Unknown('tokens')], {'max_line_length': None})
+            except Raised as r:
+                return ('raise', r.exc.kind)
+            except LoopTruncated:
+                return ('trunc', None)
+            return ('ok', g.items if isinstance(g, GenVal) else g)
+        for trace, (kind, lines) in enumerate_paths(run_, 400):
+            if kind != 'ok':
+                continue
+            n += 1
+            labs = set()
+            labels_in(lines, labs, lossy=lost)
+            seen |= labs
+        problems = []
+        if n == 0:
+            raise AnalysisError('span_to_lines could not be interpreted without a limit under %s' % cfg.key())
+        for lab in ('F1', 'F2'):
+            if lab not in seen:
+                problems.append('the text of a fragment never reaches the output lines')
+            if lost.get(lab):
+                problems.append('fragment text reaches the output lines only through %s, which can change it (spaces in front of a '
+                                'newline inside a title or an HTML span are part of the source)' % '/'.join(sorted(lost[lab])))
+        rep.obligation('R-ASSEMBLY', not problems, {'config': cfg.key(), 'paths': n, 'problems': sorted(set(problems))})
+        for p_ in sorted(set(problems)):
+            rep.find('R-ASSEMBLY', f.short, p_.split(',')[0][:60], '%s under %s: %s' % (f.short, cfg.key(), p_),
+                     loc(model.unit_of(f), f.node), witness='[a](/u "first  \nsecond")')
+
+
+def rule_definitions_kept(ctx, rep):
+    """LinkReferenceDefinitionBlock(matches) is interpreted over two abstract definitions - with different
+    labels, and with the very same label (a later definition that is shadowed is still source text) - and
+    must come out with one child per definition, in order, each carrying its own label, destination and title."""
+    from ..interp import Interp, Oracle, Obj, Raised, enumerate_paths
+    model = ctx.model
+    blk = model.classes.get('mistletoe.markdown_renderer.LinkReferenceDefinitionBlock')
+    if blk is None:
+        raise AnalysisError('anchor vanished: markdown_renderer.LinkReferenceDefinitionBlock')
+    for same_label in (False, True):
+        rep.instance('R-MD-TOKENS')
+        problems = set()
+        n = 0
+
+        def run_(oracle, same_label=same_label):
+            it = Interp(model, loop_bound=3)
+            it.reset_run(oracle)
+            install_rx_hooks(it, [])
+            it.intrinsics['str.join'] = lambda interp, args, kwargs: AbsStr(prov=('join', args[0], _freeze(args[1])))
+            l1 = AbsStr(label='label1')
+            l2 = l1 if same_label else AbsStr(label='label2')
+            ms = [(l1, AbsStr(label='dest1'), AbsStr(label='title1'), 'uri', None),
+                  (l2, AbsStr(label='dest2'), AbsStr(label='title2'), 'uri', None)]
+            try:
+                return ms, it.construct(blk, [ms], {})
+            except Raised as r:
+                return ms, ('raise', r.exc.kind)
+        for trace, (ms, obj) in enumerate_paths(run_, 32):
+            n += 1
+            if not isinstance(obj, Obj):
+                problems.add('construction yields %r' % (obj,))
+                continue
+            kids = obj.attrs.get('_children', obj.attrs.get('children'))
+            if not isinstance(kids, (list, tuple)) or len(kids) != 2:
+                problems.add('%d child token(s) for 2 definitions' % (len(kids) if isinstance(kids, (list, tuple)) else -1))
+                continue
+            for i, (k, m_) in enumerate(zip(kids, ms)):
+                got = tuple(k.attrs.get(a) for a in ('label', 'dest', 'title')) if isinstance(k, Obj) else None
+                if got is None or any(g is not w for g, w in zip(got, m_[:3])):
+                    problems.add('child %d does not carry the label, destination and title of definition %d' % (i + 1, i + 1))
+        ok = not problems and n > 0
+        rep.obligation('R-MD-TOKENS', ok, {'check': 'LinkReferenceDefinitionBlock keeps every definition in order',
+                                           'same label twice': same_label, 'problems': sorted(problems)})
+        for p_ in sorted(problems):
+            rep.find('R-MD-TOKENS', blk.short + '.__init__', 'definitions-kept(same_label=%s)' % same_label,
+                     'LinkReferenceDefinitionBlock built from two definitions%s: %s - the rendered Markdown no longer has the '
+                     'definitions of the source' % (' of the same label' if same_label else '', p_),
+                     loc(model.unit_of(blk), blk.node), witness='[foo]: /first\n[Foo]: /second')
 
 
 def _method_lossy(func):
